@@ -1,0 +1,51 @@
+//go:build verif
+
+package export
+
+// Contracts for the verification machinery in /verif (comment-only file;
+// excluded from every build without the "verif" tag).
+
+// numeric atom (ai + af) satisfies the numeric bound b
+//@ spec func satNum(b *adt.BoundValue, ai int, af real) bool { cmpOK(b.Op, cmpAtomNum(ai, af, b.Value)) }
+//@ spec func isLower(b *adt.BoundValue) bool { b != nil && isNumV(b.Value) && wfV(b.Value) && (b.Op == adt.GreaterThanOp || b.Op == adt.GreaterEqualOp) }
+//@ spec func isUpper(b *adt.BoundValue) bool { b != nil && isNumV(b.Value) && wfV(b.Value) && (b.Op == adt.LessThanOp || b.Op == adt.LessEqualOp) }
+// representation invariant of the simplifier
+//@ spec func wfBS(s *boundSimplifier) bool { s != nil && (s.min != nil ==> isLower(s.min) && s.minNum == s.min.Value.(*adt.Num)) && (s.max != nil ==> isUpper(s.max) && s.maxNum == s.max.Value.(*adt.Num)) }
+
+// (P) C07: the bounds kept by the simplifier denote the same set of numbers as
+// the conjunction of everything that was added; `int` is assumed only when an
+// int type was added (a numeric bound never narrows to int).
+//@ func (*boundSimplifier).add
+//@   strings abstract
+//@   requires wfBS(s)
+//@   requires isType(v, *adt.BoundValue) ==> v.(*adt.BoundValue) != nil && scalarV(v.(*adt.BoundValue).Value) && wfV(v.(*adt.BoundValue).Value)
+//@   requires isType(v, *adt.BasicType) ==> v.(*adt.BasicType) != nil
+//@   ensures  wfBS(s)
+//@   ensures [isint] s.isInt ==> old(s.isInt) || (isType(v, *adt.BasicType) && v.(*adt.BasicType).K & adt.ScalarKinds == adt.IntKind)
+//@   ensures [lower] used && isType(v, *adt.BoundValue) && isLower(v.(*adt.BoundValue)) ==> s.min != nil && s.max == old(s.max) && forall ai int, af real :: fracOK(af) ==> (satNum(s.min, ai, af) <==> (old(s.min) == nil || satNum(old(s.min), ai, af)) && satNum(v.(*adt.BoundValue), ai, af))
+//@   ensures [upper] used && isType(v, *adt.BoundValue) && isUpper(v.(*adt.BoundValue)) ==> s.max != nil && s.min == old(s.min) && forall ai int, af real :: fracOK(af) ==> (satNum(s.max, ai, af) <==> (old(s.max) == nil || satNum(old(s.max), ai, af)) && satNum(v.(*adt.BoundValue), ai, af))
+//@   ensures [used] used ==> (isType(v, *adt.BasicType) && s.min == old(s.min) && s.max == old(s.max)) || (isType(v, *adt.BoundValue) && (isLower(v.(*adt.BoundValue)) || isUpper(v.(*adt.BoundValue))))
+//@   ensures [unused] !used ==> s.min == old(s.min) && s.max == old(s.max)
+//@   assigns s.isInt, s.min, s.minNum, s.max, s.maxNum
+
+//@ func (*exporter).expr
+//@   assumed A-int: exports one value as an expression; does not touch the bound simplifier
+//@   assigns e.*
+
+//@ func wrapBin
+//@   ensures a == nil ==> result == b
+//@   ensures b == nil ==> result == a
+
+// (P) C07: the printed prefix never narrows: `int` is printed only when an int
+// type was among the conjuncts, `uint` (= int & >=0) only when in addition the
+// kept lower bound is non-negative, and the lower bound is dropped only when it
+// is exactly >=0 under `uint`.
+//@ func (*boundSimplifier).expr
+//@   strings abstract
+//@   requires wfBS(s) && s.e != nil
+//@   effect ast.NewIdent#0 requires s.isInt && s.min != nil && s.max != nil
+//@   effect ast.NewIdent#1 requires s.isInt && s.min != nil && s.max != nil && decSign(s.minNum.X.ip, s.minNum.X.fp) >= 0
+//@   ensures [dropmin] old(s.min) != nil && s.min == nil ==> old(s.isInt) && old(s.max) != nil && old(s.min.Op) == adt.GreaterEqualOp && decSign(old(s.minNum.X.ip), old(s.minNum.X.fp)) == 0
+//@   ensures [keepmax] s.max == old(s.max)
+//@   ensures [nilmeansnone] (old(s.min) == nil || old(s.max) == nil) ==> e == nil && s.min == old(s.min)
+//@   assigns s.min, s.e.*
